@@ -90,18 +90,25 @@ class StaticThresholdModel(darsia.Model):
             self.num_parameters = 2 * num_labels
 
     def __call__(
-        self, img: np.ndarray, mask: Optional[np.ndarray] = None
-    ) -> np.ndarray:
+        self,
+        img: np.ndarray | darsia.Image,
+        mask: Optional[np.ndarray | darsia.Image] = None,
+    ) -> np.ndarray | darsia.Image:
         """
         Convert signal to binary data through thresholding.
 
         Args:
-            img (np.ndarray): signal
-            mask (np.ndarray, optional): mask
+            img (np.ndarray | Image): signal
+            mask (np.ndarray | Image, optional): mask
 
         Returns:
-            np.ndarray: boolean mask
+            np.ndarray | Image: boolean mask; output type is the same as input type
         """
+        # Images: threshold the data and return an image of the same kind
+        if isinstance(img, darsia.Image):
+            data = self(img.img, mask.img if isinstance(mask, darsia.Image) else mask)
+            return type(img)(data, **img.metadata())
+
         # Apply thresholding directly to the signal
         if self._is_homogeneous:
             threshold_mask = self._call_homogeneous(img)
